@@ -265,6 +265,7 @@ type Violation struct {
 	Case    json.RawMessage `json:"case,omitempty"`
 	Trace   json.RawMessage `json:"trace,omitempty"`
 	Bound   int             `json:"bound,omitempty"`
+	Sites   []string        `json:"sites,omitempty"`
 }
 
 type Report struct {
